@@ -209,6 +209,10 @@ class AtomsEngine(Engine):
                       "n": [rng.choice([1.0, 0.5, rng.uniform(1e-3, 10.0), rng.uniform(1e20, 1e30)]),
                             rng.choice(N_UNITS)],
                       "wl": wl}
+                if rng.random() < 0.2:
+                    # integer number density (the user guide itself writes sc.scalar(1, unit='1/angstrom**3'))
+                    op["n"] = [float(rng.choice([1, 2, 72, 600, 1500, rng.randrange(1, 5000)])), rng.choice(N_UNITS)]
+                    op["n_dtype"] = "int64"
                 if wdt.startswith("int"):
                     # integer wavelengths (e.g. sc.arange) in a unit where they are >= 1
                     op["wl"] = ([float(rng.randrange(1, 30)) for _ in wl[0]] if isinstance(wl[0], list)
@@ -497,7 +501,10 @@ class AtomsEngine(Engine):
             return
         try:
             sp = atoms.ScatteringParams.for_isotope(name)
-            n = sc.scalar(op["n"][0], unit=op["n"][1])
+            if op.get("n_dtype") == "int64":
+                n = sc.scalar(int(op["n"][0]), unit=op["n"][1], dtype="int64")
+            else:
+                n = sc.scalar(op["n"][0], unit=op["n"][1])
             wlv, wlu = op["wl"]
             wdt = op.get("wl_dtype", "float64")
             if isinstance(wlv, list):
@@ -562,7 +569,7 @@ class AtomsEngine(Engine):
             elif again == "wavelength_unit" and wlu == "angstrom":
                 wl.unit = "nm"
                 lam_A = lam_A * 10.0
-            elif again == "density":
+            elif again == "density" and op.get("n_dtype") != "int64":
                 mat.effective_sample_number_density *= 0.5
                 n_m3 = n_m3 * 0.5
             else:
